@@ -73,6 +73,15 @@ def main():
     for _ in range(300 if quick else 4000):
         k = rng.choice([1, 1, 2, 3])
         cases.append({"op": "qroundtrip", "m": rng.choice(MAGS), "u": [[rng.choice([None, None] + prefixes), rng.choice(names), rng.choice([1, 1, 2, -1, -2])] for _ in range(k)]})
+    # quantities whose prefix cannot be written onto the first factor (milli.(m^2)): str() folds the prefix into the magnitude; the folded
+    # text must parse back to an equal quantity (magnitudes where m * 10**-k and m / 10**k differ in the last bit included)
+    for p in ("milli", "centi", "micro", "kilo", "deci", "mega"):
+        if p not in prefixes: continue
+        for u, e in (("meter", 2), ("meter", 3), ("second", 2), ("gram", 3)):
+            if u not in names: continue
+            for m in (["int", "9", "1"], ["int", "13", "1"], ["int", "18", "1"], ["int", "26", "1"], ["int", "36", "1"], ["float", "7", "10"], ["float", "11", "10"], ["int", "7", "1"]):
+                cases.append({"op": "qroundtrip", "m": m, "u": [[p, u, 1], [None, u, e - 1]]})
+                cases.append({"op": "qroundtrip", "m": m, "u": [[p, u, 1], [None, u, e - 1], [None, "second" if u != "second" else "meter", -1]]})
     r0 = parse_worker({"cases": [], "tables": True})
     T = r0["tables"]
     symbols = [s for s, u in T["usym"]]
